@@ -36,6 +36,7 @@ func c11Facts(g *genCtx) string {
 	out.WriteString(c11Template(g))
 	out.WriteString(c11TemplatePackage(g))
 	out.WriteString(c11SchemaNames(g))
+	out.WriteString(c11FormPostProgram(g))
 	return out.String()
 }
 
